@@ -399,8 +399,12 @@ fn run_exp_for(sh: &mut shell::Shell,
                 sh.set_env(&var_name, value);
                 let (mut _cr_list, _cont, _brk) = run_exp(
                     sh, pair.clone(), args, true, capture);
+                // `set -e`: a failure in the body ends the loop as well,
+                // not only the current iteration.
+                let failed = sh.exit_on_error &&
+                    _cr_list.last().map_or(false, |x| x.status != 0);
                 cr_list.append(&mut _cr_list);
-                if _brk {
+                if _brk || failed {
                     break;
                 }
             }
@@ -416,8 +420,10 @@ fn run_exp_while(sh: &mut shell::Shell,
     let mut cr_list = Vec::new();
     loop {
         let (mut _cr_list, passed, _cont, _brk) = run_exp_test_br(sh, pair_while.clone(), args, true, capture);
+        let failed = sh.exit_on_error &&
+            _cr_list.last().map_or(false, |x| x.status != 0);
         cr_list.append(&mut _cr_list);
-        if !passed || _brk {
+        if !passed || _brk || failed {
             break;
         }
     }
